@@ -136,6 +136,13 @@ class Check(PropertyCheck):
             second = list(c)
             if len(first) != 4 or len(second) != 4:
                 res.append(("iteration", "iterating (twice) did not yield iteration_limit instances each time"))
+            # however the instances are pulled (passes, generate(), next()), two generators with the same seed hand out the same
+            # sequence: a second pass goes on where the first one ended, like a twin asked nine times in a row
+            twin = GeneralInstanceGenerator(**kw)
+            nine = [twin.generate() for _ in range(9)]
+            if dump([pre] + first + second) != dump(nine):
+                res.append(("seed-passes", f"a generator with seed {seed} pulled as generate() + two passes of 4 differs from its twin pulled "
+                            f"with nine generate() calls"))
             # a pass that is abandoned early (break / a few bare next() calls) does not shorten the next pass
             e = GeneralInstanceGenerator(**kw)
             for k, _inst in enumerate(e):
